@@ -481,6 +481,8 @@ def filter_overlapping(tokens):
                 else:
                     logger_debug('  del curr_tok smaller overlap:', curr_tok)
                     del tokens[i]
+                    # the token now at i must be compared with its followers too
+                    i -= 1
                     break
             j += 1
         i += 1
